@@ -253,6 +253,11 @@ func CombineLatestWith1[A, B any](obsB Observable[B]) func(Observable[A]) Observ
 			// 3: error
 			var status int32
 
+			// mu makes "store the value, read the latest values, emit" (and "mark as
+			// failed, emit the error") one step, so that sources emitting from different
+			// goroutines cannot deliver a stale or duplicated combination.
+			var mu sync.Mutex
+
 			onUpdate := func(ctx context.Context, a *A, b *B) {
 				if atomic.LoadInt32(&status) < 2 {
 					if a == nil {
@@ -282,10 +287,16 @@ func CombineLatestWith1[A, B any](obsB Observable[B]) func(Observable[A]) Observ
 					subscriberCtx,
 					NewObserverWithContext(
 						func(ctx context.Context, v A) {
+							mu.Lock()
+							defer mu.Unlock()
+
 							valueA.Store(&v)
 							onUpdate(ctx, &v, nil)
 						},
 						func(ctx context.Context, err error) {
+							mu.Lock()
+							defer mu.Unlock()
+
 							atomic.StoreInt32(&status, 3)
 							destination.ErrorWithContext(ctx, err)
 						},
@@ -302,10 +313,16 @@ func CombineLatestWith1[A, B any](obsB Observable[B]) func(Observable[A]) Observ
 					subscriberCtx,
 					NewObserverWithContext(
 						func(ctx context.Context, v B) {
+							mu.Lock()
+							defer mu.Unlock()
+
 							valueB.Store(&v)
 							onUpdate(ctx, nil, &v)
 						},
 						func(ctx context.Context, err error) {
+							mu.Lock()
+							defer mu.Unlock()
+
 							atomic.StoreInt32(&status, 3)
 							destination.ErrorWithContext(ctx, err)
 						},
@@ -345,6 +362,11 @@ func CombineLatestWith2[A, B, C any](obsB Observable[B], obsC Observable[C]) fun
 			// 4: error
 			var status int32
 
+			// mu makes "store the value, read the latest values, emit" (and "mark as
+			// failed, emit the error") one step, so that sources emitting from different
+			// goroutines cannot deliver a stale or duplicated combination.
+			var mu sync.Mutex
+
 			onUpdate := func(ctx context.Context, a *A, b *B, c *C) {
 				if atomic.LoadInt32(&status) < 3 {
 					if a == nil {
@@ -378,10 +400,16 @@ func CombineLatestWith2[A, B, C any](obsB Observable[B], obsC Observable[C]) fun
 					subscriberCtx,
 					NewObserverWithContext(
 						func(ctx context.Context, v A) {
+							mu.Lock()
+							defer mu.Unlock()
+
 							valueA.Store(&v)
 							onUpdate(ctx, &v, nil, nil)
 						},
 						func(ctx context.Context, err error) {
+							mu.Lock()
+							defer mu.Unlock()
+
 							atomic.StoreInt32(&status, 4)
 							destination.ErrorWithContext(ctx, err)
 						},
@@ -398,10 +426,16 @@ func CombineLatestWith2[A, B, C any](obsB Observable[B], obsC Observable[C]) fun
 					subscriberCtx,
 					NewObserverWithContext(
 						func(ctx context.Context, v B) {
+							mu.Lock()
+							defer mu.Unlock()
+
 							valueB.Store(&v)
 							onUpdate(ctx, nil, &v, nil)
 						},
 						func(ctx context.Context, err error) {
+							mu.Lock()
+							defer mu.Unlock()
+
 							atomic.StoreInt32(&status, 4)
 							destination.ErrorWithContext(ctx, err)
 						},
@@ -418,10 +452,16 @@ func CombineLatestWith2[A, B, C any](obsB Observable[B], obsC Observable[C]) fun
 					subscriberCtx,
 					NewObserverWithContext(
 						func(ctx context.Context, v C) {
+							mu.Lock()
+							defer mu.Unlock()
+
 							valueC.Store(&v)
 							onUpdate(ctx, nil, nil, &v)
 						},
 						func(ctx context.Context, err error) {
+							mu.Lock()
+							defer mu.Unlock()
+
 							atomic.StoreInt32(&status, 4)
 							destination.ErrorWithContext(ctx, err)
 						},
@@ -463,6 +503,11 @@ func CombineLatestWith3[A, B, C, D any](obsB Observable[B], obsC Observable[C], 
 			// 5: error
 			var status int32
 
+			// mu makes "store the value, read the latest values, emit" (and "mark as
+			// failed, emit the error") one step, so that sources emitting from different
+			// goroutines cannot deliver a stale or duplicated combination.
+			var mu sync.Mutex
+
 			onUpdate := func(ctx context.Context, a *A, b *B, c *C, d *D) {
 				if atomic.LoadInt32(&status) < 4 {
 					if a == nil {
@@ -500,10 +545,16 @@ func CombineLatestWith3[A, B, C, D any](obsB Observable[B], obsC Observable[C], 
 					subscriberCtx,
 					NewObserverWithContext(
 						func(ctx context.Context, v A) {
+							mu.Lock()
+							defer mu.Unlock()
+
 							valueA.Store(&v)
 							onUpdate(ctx, &v, nil, nil, nil)
 						},
 						func(ctx context.Context, err error) {
+							mu.Lock()
+							defer mu.Unlock()
+
 							atomic.StoreInt32(&status, 5)
 							destination.ErrorWithContext(ctx, err)
 						},
@@ -520,10 +571,16 @@ func CombineLatestWith3[A, B, C, D any](obsB Observable[B], obsC Observable[C], 
 					subscriberCtx,
 					NewObserverWithContext(
 						func(ctx context.Context, v B) {
+							mu.Lock()
+							defer mu.Unlock()
+
 							valueB.Store(&v)
 							onUpdate(ctx, nil, &v, nil, nil)
 						},
 						func(ctx context.Context, err error) {
+							mu.Lock()
+							defer mu.Unlock()
+
 							atomic.StoreInt32(&status, 5)
 							destination.ErrorWithContext(ctx, err)
 						},
@@ -540,10 +597,16 @@ func CombineLatestWith3[A, B, C, D any](obsB Observable[B], obsC Observable[C], 
 					subscriberCtx,
 					NewObserverWithContext(
 						func(ctx context.Context, v C) {
+							mu.Lock()
+							defer mu.Unlock()
+
 							valueC.Store(&v)
 							onUpdate(ctx, nil, nil, &v, nil)
 						},
 						func(ctx context.Context, err error) {
+							mu.Lock()
+							defer mu.Unlock()
+
 							atomic.StoreInt32(&status, 5)
 							destination.ErrorWithContext(ctx, err)
 						},
@@ -560,10 +623,16 @@ func CombineLatestWith3[A, B, C, D any](obsB Observable[B], obsC Observable[C], 
 					subscriberCtx,
 					NewObserverWithContext(
 						func(ctx context.Context, v D) {
+							mu.Lock()
+							defer mu.Unlock()
+
 							valueD.Store(&v)
 							onUpdate(ctx, nil, nil, nil, &v)
 						},
 						func(ctx context.Context, err error) {
+							mu.Lock()
+							defer mu.Unlock()
+
 							atomic.StoreInt32(&status, 5)
 							destination.ErrorWithContext(ctx, err)
 						},
@@ -606,6 +675,11 @@ func CombineLatestWith4[A, B, C, D, E any](obsB Observable[B], obsC Observable[C
 			// 6: error
 			var status int32
 
+			// mu makes "store the value, read the latest values, emit" (and "mark as
+			// failed, emit the error") one step, so that sources emitting from different
+			// goroutines cannot deliver a stale or duplicated combination.
+			var mu sync.Mutex
+
 			onUpdate := func(ctx context.Context, a *A, b *B, c *C, d *D, e *E) {
 				if atomic.LoadInt32(&status) < 5 {
 					if a == nil {
@@ -647,10 +721,16 @@ func CombineLatestWith4[A, B, C, D, E any](obsB Observable[B], obsC Observable[C
 					subscriberCtx,
 					NewObserverWithContext(
 						func(ctx context.Context, v A) {
+							mu.Lock()
+							defer mu.Unlock()
+
 							valueA.Store(&v)
 							onUpdate(ctx, &v, nil, nil, nil, nil)
 						},
 						func(ctx context.Context, err error) {
+							mu.Lock()
+							defer mu.Unlock()
+
 							atomic.StoreInt32(&status, 6)
 							destination.ErrorWithContext(ctx, err)
 						},
@@ -667,10 +747,16 @@ func CombineLatestWith4[A, B, C, D, E any](obsB Observable[B], obsC Observable[C
 					subscriberCtx,
 					NewObserverWithContext(
 						func(ctx context.Context, v B) {
+							mu.Lock()
+							defer mu.Unlock()
+
 							valueB.Store(&v)
 							onUpdate(ctx, nil, &v, nil, nil, nil)
 						},
 						func(ctx context.Context, err error) {
+							mu.Lock()
+							defer mu.Unlock()
+
 							atomic.StoreInt32(&status, 6)
 							destination.ErrorWithContext(ctx, err)
 						},
@@ -687,10 +773,16 @@ func CombineLatestWith4[A, B, C, D, E any](obsB Observable[B], obsC Observable[C
 					subscriberCtx,
 					NewObserverWithContext(
 						func(ctx context.Context, v C) {
+							mu.Lock()
+							defer mu.Unlock()
+
 							valueC.Store(&v)
 							onUpdate(ctx, nil, nil, &v, nil, nil)
 						},
 						func(ctx context.Context, err error) {
+							mu.Lock()
+							defer mu.Unlock()
+
 							atomic.StoreInt32(&status, 6)
 							destination.ErrorWithContext(ctx, err)
 						},
@@ -707,10 +799,16 @@ func CombineLatestWith4[A, B, C, D, E any](obsB Observable[B], obsC Observable[C
 					subscriberCtx,
 					NewObserverWithContext(
 						func(ctx context.Context, v D) {
+							mu.Lock()
+							defer mu.Unlock()
+
 							valueD.Store(&v)
 							onUpdate(ctx, nil, nil, nil, &v, nil)
 						},
 						func(ctx context.Context, err error) {
+							mu.Lock()
+							defer mu.Unlock()
+
 							atomic.StoreInt32(&status, 6)
 							destination.ErrorWithContext(ctx, err)
 						},
@@ -727,10 +825,16 @@ func CombineLatestWith4[A, B, C, D, E any](obsB Observable[B], obsC Observable[C
 					subscriberCtx,
 					NewObserverWithContext(
 						func(ctx context.Context, v E) {
+							mu.Lock()
+							defer mu.Unlock()
+
 							valueE.Store(&v)
 							onUpdate(ctx, nil, nil, nil, nil, &v)
 						},
 						func(ctx context.Context, err error) {
+							mu.Lock()
+							defer mu.Unlock()
+
 							atomic.StoreInt32(&status, 6)
 							destination.ErrorWithContext(ctx, err)
 						},
@@ -771,6 +875,11 @@ func CombineLatestAll[T any]() func(Observable[Observable[T]]) Observable[[]T] {
 			// .: partially done
 			// n: not done
 			var status int32
+
+			// mu makes "store the value, read the latest values, emit" (and "mark as
+			// failed, emit the error") one step, so that sources emitting from different
+			// goroutines cannot deliver a stale or duplicated combination.
+			var mu sync.Mutex
 
 			onUpdate := func(ctx context.Context) {
 				if atomic.LoadInt32(&status) > 0 {
@@ -813,10 +922,16 @@ func CombineLatestAll[T any]() func(Observable[Observable[T]]) Observable[[]T] {
 							subscriberCtx,
 							NewObserverWithContext(
 								func(ctx context.Context, v T) {
+									mu.Lock()
+									defer mu.Unlock()
+
 									values[j].Store(&v)
 									onUpdate(ctx)
 								},
 								func(ctx context.Context, err error) {
+									mu.Lock()
+									defer mu.Unlock()
+
 									atomic.StoreInt32(&status, -1)
 									destination.ErrorWithContext(ctx, err)
 								},
